@@ -853,3 +853,225 @@ Proof.
   - unfold accepts. apply Hm. exact Hle.
   - intros m Hle'. apply Hm. lia.
 Qed.
+
+(* ------------------------------------------------------------------------------------ a Task started on an executor *)
+
+Lemma lazy_then_inv : forall pol ce s e q id par a rt body o s',
+  dlazy pol ce s e (PThen q id par a rt body) = Some (o, s') ->
+  exists oq s0, dlazy pol ce s e q = Some (oq, s0) /\ dstep_result pol ce s0 oq id par a rt body = Some (o, s').
+Proof.
+  intros. cbn [dlazy] in H. destruct (dlazy pol ce s e q) as [[oq s0]|]; [|discriminate].
+  exists oq, s0. split; [reflexivity|exact H].
+Qed.
+
+Lemma lazy_then_shape : forall pol ce s e q id par a rt body oq s0 o s',
+  dlazy pol ce s e q = Some (oq, s0) -> dlazy pol ce s e (PThen q id par a rt body) = Some (o, s') ->
+  o_exec o = exec_of a oq /\ o_ty o = rt /\ step_shape pol ce s0 oq id par a body o s'.
+Proof.
+  intros. cbn [dlazy] in H0. rewrite H in H0. apply dstep_shape in H0. exact H0.
+Qed.
+
+(* every step of a started Task contributes exactly what the same step contributes in an eager pipeline: one job at the
+   executor its core holds if it is a Call-type step, at most one invocation carrying that executor, the returned chain *)
+Theorem lazy_step_contrib : forall pol ce s e q id par a rt body oq s0 o s',
+  dlazy pol ce s e q = Some (oq, s0) -> dlazy pol ce s e (PThen q id par a rt body) = Some (o, s') ->
+  o_exec o = exec_of a oq /\
+  contrib pol ce (step_st pol s0 a id (exec_of a oq)) (o_evs oq) (exec_of a oq) id (is_call a) body o s'.
+Proof.
+  intros. destruct (lazy_then_shape _ _ _ _ _ _ _ _ _ _ _ _ _ _ H H0) as [He [_ Hs]]. split; [exact He|].
+  unfold contrib. destruct Hs as [[_ [_ [He' Hs]]]|[i [_ [[_ [_ [He' Hs]]]|[k [p' [oi [Hb [Hr [Hres He']]]]]]]]]].
+  - left. split; [assumption|]. left. assumption.
+  - left. split; [assumption|]. right. exists i. assumption.
+  - right. exists i, k, p', oi. repeat split; assumption.
+Qed.
+
+(* Then(e1, f) in a Task started on e: the job goes to e1, whatever e is *)
+Theorem lazy_placement_on : forall pol ce s e q id par e1 rt body oq s0 o s',
+  dlazy pol ce s e q = Some (oq, s0) -> dlazy pol ce s e (PThen q id par (AOn e1) rt body) = Some (o, s') ->
+  o_exec o = e1 /\
+  contrib pol ce (s0 ++ [Job id e1 (d_cnt s0 e1) (if pol e1 (d_cnt s0 e1) then FCall else FDrop)]) (o_evs oq) e1 id true body o s'.
+Proof. intros. exact (lazy_step_contrib _ _ _ _ _ _ _ _ _ _ _ _ _ _ H H0). Qed.
+
+(* the heads *)
+Definition is_head (p : prog) : bool :=
+  match p with PReady WT _ _ | PRun WT _ _ _ _ _ | PProm WT _ _ _ _ | PCoro WT _ _ _ => true | _ => false end.
+
+(* the first core is handed to e — not to the executor it was built with — as one job, Called iff e accepts; the core holds e *)
+Theorem lazy_head_on_e : forall pol ce s e p o s',
+  is_head p = true -> (forall id, ce id = []) -> dlazy pol ce s e p = Some (o, s') ->
+  o_exec o = e /\
+  exists js, s' = s ++ Job (head_job_id p) e (d_cnt s e) (if accepts pol s e then FCall else FDrop) :: js.
+Proof.
+  intros pol ce s e p o s' Hh Hce H. destruct p; try discriminate Hh; destruct w; try discriminate Hh; cbn [dlazy head_job_id] in *.
+  - inversion H. subst. cbn. split; [reflexivity|]. exists []. reflexivity.
+  - cbn [drun] in H. unfold submitted in H.
+    destruct (run_call par _) as [[i|r]|]; [| |discriminate].
+    + destruct (body i) as [x|v| |r|k p'] eqn:Hb; try (inversion H; subst; cbn; split; [reflexivity|]; exists []; reflexivity).
+      destruct (drun pol ce _ p') as [[oi s2]|] eqn:Hr; [|discriminate].
+      destruct (drun_ext _ _ _ _ _ _ Hr) as [js Hjs]. inversion H. subst. cbn. split; [reflexivity|].
+      exists js. rewrite <- app_assoc. reflexivity.
+    + inversion H. subst. cbn. split; [reflexivity|]. exists []. reflexivity.
+  - cbn [drun] in H. destruct (prom_result _ _). inversion H. subst. cbn. split; [reflexivity|]. exists []. reflexivity.
+  - rewrite Hce in H. destruct (accepts pol s e) eqn:Ha; cbn in H; inversion H; subst; cbn; unfold submitted; rewrite Ha;
+      (split; [reflexivity|]); exists []; reflexivity.
+Qed.
+
+(* ... and a refused head (Cancel(): e = MakeInline(StopTag)) completes with StopError without invoking anything, except a
+   Schedule function that takes Result / E *)
+Theorem lazy_head_refused : forall pol ce s e p o s',
+  is_head p = true -> accepts pol s e = false -> dlazy pol ce s e p = Some (o, s') ->
+  match p with
+  | PRun _ _ id par _ _ =>
+      match invoked par (Err EStop) with
+      | None => o_res o = Err EStop /\ o_evs o = []
+      | Some i => exists rest, o_evs o = Ev id e true i :: rest
+      end
+  | _ => o_res o = Err EStop /\ o_evs o = []
+  end.
+Proof.
+  intros pol ce s e p o s' Hh Ha H. destruct p; try discriminate Hh; destruct w; try discriminate Hh; cbn [dlazy] in *.
+  - rewrite Ha in H. inversion H. split; reflexivity.
+  - cbn [drun] in H. rewrite Ha, run_call_class in H. cbn [negb] in H.
+    destruct (par_ok par TVoid); [|discriminate]. unfold by_class in H.
+    destruct (invoked par (Err EStop)) as [i|].
+    + destruct (body i) as [x|v| |r|k p']; try (inversion H; subst; cbn; eexists; reflexivity).
+      destruct (drun pol ce _ p') as [[oi s2]|]; [|discriminate]. inversion H. subst. cbn. eexists. reflexivity.
+    + inversion H. split; reflexivity.
+  - cbn [drun] in H. rewrite Ha in H. unfold prom_result in H. cbn in H. inversion H. split; reflexivity.
+  - rewrite Ha in H. inversion H. split; reflexivity.
+Qed.
+
+(* through any number of ThenInline(f) / Then(f) steps after the head the executor is e: started on e, executor-less steps
+   inherit e — not the executor the head was built with — until a step names its own *)
+Theorem lazy_inherit_chain : forall pol ce e steps s h o s',
+  Forall unnamed steps -> dlazy pol ce s e (chain h steps) = Some (o, s') ->
+  exists oh sh, dlazy pol ce s e h = Some (oh, sh) /\ o_exec o = o_exec oh.
+Proof.
+  intros pol ce e steps. induction steps as [|x l IH] using rev_ind; intros s h o s' Hu H.
+  - cbn in H. exists o, s'. split; [assumption|reflexivity].
+  - rewrite chain_snoc in H. unfold then_step in H.
+    apply Forall_app in Hu. destruct Hu as [Hl Hx]. inversion Hx as [|? ? Hx' _]. subst.
+    destruct (lazy_then_inv _ _ _ _ _ _ _ _ _ _ _ _ H) as [oq [s0 [Hq Hs]]].
+    apply dstep_shape in Hs. destruct Hs as [He _].
+    destruct (IH _ _ _ _ Hl Hq) as [oh [sh [Hh Heq]]].
+    exists oh, sh. split; [assumption|]. rewrite He, <- Heq. apply unnamed_exec. exact Hx'.
+Qed.
+
+Corollary lazy_inherit_e : forall pol ce e steps s h o s',
+  is_head h = true -> (forall id, ce id = []) -> Forall unnamed steps ->
+  dlazy pol ce s e (chain h steps) = Some (o, s') -> o_exec o = e.
+Proof.
+  intros. destruct (lazy_inherit_chain _ _ _ _ _ _ _ _ H1 H2) as [oh [sh [Hh Heq]]].
+  destruct (lazy_head_on_e _ _ _ _ _ _ _ H H0 Hh) as [He _]. rewrite Heq. exact He.
+Qed.
+
+(* read off the program text *)
+Theorem lazy_named : forall pol ce s e p o s',
+  (forall id, ce id = []) -> dlazy pol ce s e p = Some (o, s') -> o_exec o = lnamed e p.
+Proof.
+  intros pol ce s e p. revert s. induction p; intros s o s' Hce H; try (cbn in H; discriminate).
+  - destruct w; try (cbn in H; discriminate). cbn in H. inversion H. reflexivity.
+  - destruct w; try (cbn in H; discriminate).
+    destruct (lazy_head_on_e pol ce s e (PRun WT e0 id par rt body) o s' eq_refl Hce H) as [He _]. exact He.
+  - destruct w; try (cbn in H; discriminate).
+    destruct (lazy_head_on_e pol ce s e (PProm WT t e0 id b) o s' eq_refl Hce H) as [He _]. exact He.
+  - destruct w; try (cbn in H; discriminate).
+    destruct (lazy_head_on_e pol ce s e (PCoro WT t id r) o s' eq_refl Hce H) as [He _]. exact He.
+  - destruct (lazy_then_inv _ _ _ _ _ _ _ _ _ _ _ _ H) as [oq [s0 [Hq Hs]]].
+    apply dstep_shape in Hs. destruct Hs as [He _]. rewrite He.
+    destruct a; cbn; try reflexivity; eapply IHp; eassumption.
+Qed.
+
+(* a Then(f) of a started Task: its job goes to [lnamed e q] *)
+Theorem lazy_inherit_named : forall pol s e q id par rt body o s',
+  dlazy pol no_on s e (PThen q id par AInherit rt body) = Some (o, s') ->
+  exists oq s0, dlazy pol no_on s e q = Some (oq, s0) /\ o_exec o = lnamed e q /\
+    contrib pol no_on (s0 ++ [Job id (lnamed e q) (d_cnt s0 (lnamed e q))
+                                  (if pol (lnamed e q) (d_cnt s0 (lnamed e q)) then FCall else FDrop)])
+            (o_evs oq) (lnamed e q) id true body o s'.
+Proof.
+  intros. destruct (lazy_then_inv _ _ _ _ _ _ _ _ _ _ _ _ H) as [oq [s0 [Hq _]]].
+  destruct (lazy_step_contrib _ _ _ _ _ _ _ _ _ _ _ _ _ _ Hq H) as [He Hc].
+  cbn [exec_of is_call step_st] in *. unfold submitted, accepts in Hc.
+  rewrite (lazy_named _ _ _ _ _ _ _ (fun _ => eq_refl) Hq) in *. exists oq, s0. repeat split; assumption.
+Qed.
+
+(* a refused step of a started Task (every inheriting step after Cancel()) *)
+Theorem lazy_refused_step : forall pol ce s e q id par a rt body oq s0 o s',
+  dlazy pol ce s e q = Some (oq, s0) -> dlazy pol ce s e (PThen q id par a rt body) = Some (o, s') ->
+  is_call a = true -> accepts pol s0 (exec_of a oq) = false ->
+  let ex := exec_of a oq in
+  let s1 := s0 ++ [Job id ex (d_cnt s0 ex) FDrop] in
+  match invoked par (Err EStop) with
+  | None => o_res o = Err EStop /\ o_evs o = o_evs oq /\ s' = s1
+  | Some i => (i = IRes (Err EStop) \/ i = IErr EStop) /\
+              exists rest js, o_evs o = o_evs oq ++ Ev id ex true i :: rest /\ s' = s1 ++ js
+  end.
+Proof.
+  intros pol ce s e q id par a rt body oq s0 o s' Hq H Hc Ha ex s1.
+  destruct (lazy_then_shape _ _ _ _ _ _ _ _ _ _ _ _ _ _ Hq H) as [_ [_ Hs]]. unfold step_shape in Hs.
+  rewrite (darrives_refused _ _ _ _ Hc Ha) in Hs.
+  assert (Hs1 : step_st pol s0 a id (exec_of a oq) = s1).
+  { unfold step_st, submitted. rewrite Hc, Ha. reflexivity. }
+  rewrite Hs1, Hc in Hs. fold ex in Hs.
+  destruct Hs as [[Hi [Hr [He Hs]]]|[i [Hi Hs]]].
+  - rewrite Hi. repeat split; assumption.
+  - rewrite Hi. split.
+    + destruct par; cbn in Hi; inversion Hi; auto.
+    + destruct Hs as [[_ [_ [He Hs]]]|[k [p' [oi [Hb [Hr [_ He]]]]]]].
+      * exists [], []. rewrite app_nil_r. split; assumption.
+      * destruct (drun_ext _ _ _ _ _ _ Hr) as [js Hjs]. exists (o_evs oi), js. split; assumption.
+Qed.
+
+(* started on an executor that keeps refusing (Cancel()): the refusal is inherited down the chain *)
+Theorem lazy_refusal_inherited : forall pol ce s e q id par a rt body oq s0 o1 s1,
+  dlazy pol ce s e q = Some (oq, s0) -> dlazy pol ce s e (PThen q id par a rt body) = Some (o1, s1) ->
+  (forall m, d_cnt s0 (exec_of a oq) <= m -> pol (exec_of a oq) m = false) ->
+  o_exec o1 = exec_of a oq /\ accepts pol s1 (exec_of AInherit o1) = false /\
+  (forall m, d_cnt s1 (exec_of AInherit o1) <= m -> pol (exec_of AInherit o1) m = false).
+Proof.
+  intros pol ce s e q id par a rt body oq s0 o1 s1 Hq H Hm.
+  destruct (lazy_then_shape _ _ _ _ _ _ _ _ _ _ _ _ _ _ Hq H) as [He [_ Hs]].
+  assert (Hext : exists js, s1 = s0 ++ js).
+  { destruct (ext_step pol s0 a id (exec_of a oq)) as [js1 Hj1].
+    destruct Hs as [[_ [_ [_ Hs]]]|[i [_ [[_ [_ [_ Hs]]]|[k [p' [oi [_ [Hr _]]]]]]]]].
+    - subst. eexists. exact Hj1.
+    - subst. eexists. exact Hj1.
+    - destruct (drun_ext _ _ _ _ _ _ Hr) as [js2 Hj2]. rewrite Hj2, Hj1, <- app_assoc. eexists. reflexivity. }
+  destruct Hext as [js Hjs]. cbn [exec_of]. rewrite He. split; [reflexivity|].
+  assert (Hle : d_cnt s0 (exec_of a oq) <= d_cnt s1 (exec_of a oq)). { rewrite Hjs, d_cnt_app. lia. }
+  split.
+  - unfold accepts. apply Hm. exact Hle.
+  - intros m Hle'. apply Hm. lia.
+Qed.
+
+(* ------------------------------------------------------------------------------------ started on e = built on e *)
+
+(* the same program with the head's executor replaced *)
+Fixpoint rehead (e : exec) (p : prog) : prog :=
+  match p with
+  | PRun WT _ id par rt body => PRun WT e id par rt body
+  | PProm WT t _ id b => PProm WT t e id b
+  | PThen q id par a rt body => PThen (rehead e q) id par a rt body
+  | _ => p
+  end.
+
+Fixpoint sched_head (p : prog) : bool :=
+  match p with
+  | PRun WT _ _ _ _ _ | PProm WT _ _ _ _ => true
+  | PThen q _ _ _ _ _ => sched_head q
+  | _ => false
+  end.
+
+(* for Schedule / LazyContract heads, ToFuture(e) / Detach(e) / Cancel() is exactly the pipeline whose head was built on e, started
+   the default way: every theorem about drun applies to it *)
+Theorem lazy_is_rehead : forall pol ce e p s, sched_head p = true -> dlazy pol ce s e p = drun pol ce s (rehead e p).
+Proof.
+  intros pol ce e p. induction p; intros s Hh; try discriminate Hh.
+  - destruct w; try discriminate Hh. reflexivity.
+  - destruct w; try discriminate Hh. reflexivity.
+  - cbn [sched_head] in Hh. cbn [dlazy rehead]. rewrite (IHp s Hh).
+    destruct (drun pol ce s (rehead e p)) as [[oq s0]|] eqn:Hq.
+    + symmetry. apply dthen_unfold. exact Hq.
+    + cbn [drun]. rewrite Hq. reflexivity.
+Qed.
